@@ -400,8 +400,24 @@ fn check(case: &Case) -> Verdict {
     let edge_tol = 0.06 * s.chord; // generous: methods place the edge point differently along the nose arc; swapped ends are a full chord apart
     let open_le = matches!(le.geometry, EdgeGeometry::Open);
     let open_te = matches!(te.geometry, EdgeGeometry::Open);
-    ensure!(lead_err <= edge_tol + if open_le { 0.14 * s.chord } else { 0.0 }, format!("C10/edges/leading_edge_misplaced/{:?}", case.config.le), "leading edge reported at {:?}, {lead_err:e} from the true leading edge {:?} (trailing edge is at {:?}; chord {:.4}; {class})", le.point, truth.le_point, truth.te_point, s.chord);
-    ensure!(trail_err <= edge_tol + if open_te { 0.14 * s.chord } else { 0.0 }, format!("C10/edges/trailing_edge_misplaced/{:?}", case.config.te), "trailing edge reported at {:?}, {trail_err:e} from the true trailing edge {:?} (chord {:.4}; {class})", te.point, truth.te_point, s.chord);
+    // an open edge is reported at the centre of the end station, which sits near the cut: allow the distance from the true
+    // edge point to the camber point at the cut plus two local radii (the statement fixes no position for open edges; what
+    // must not happen is the two ends being exchanged, which are a chord apart)
+    let open_allow = |at_le: bool| -> f64 {
+        let Some((frac, _)) = s.open else { return 0.14 * s.chord };
+        let m = truth.camber.v.len() - 1;
+        let i = ((if at_le { frac } else { 1.0 - frac }) * m as f64).round() as usize;
+        let edge = if at_le { truth.le_point } else { truth.te_point };
+        ((truth.camber.v[i.min(m)] - edge).norm() + 2.0 * truth.radius[i.min(m)]).max(0.14 * s.chord)
+    };
+    if open_le {
+        ensure!(lead_err < (le.point - truth.te_point).norm(), "C10/edges/open_leading_edge_at_trailing_end", "open leading edge {:?} is nearer to the true trailing edge {:?} than to the true leading edge {:?}", le.point, truth.te_point, truth.le_point);
+    }
+    if open_te {
+        ensure!(trail_err < (te.point - truth.le_point).norm(), "C10/edges/open_trailing_edge_at_leading_end", "open trailing edge {:?} is nearer to the true leading edge {:?} than to the true trailing edge {:?}", te.point, truth.le_point, truth.te_point);
+    }
+    ensure!(lead_err <= edge_tol + if open_le { open_allow(true) } else { 0.0 }, format!("C10/edges/leading_edge_misplaced/{:?}", case.config.le), "leading edge reported at {:?}, {lead_err:e} from the true leading edge {:?} (trailing edge is at {:?}; chord {:.4}; {class})", le.point, truth.le_point, truth.te_point, s.chord);
+    ensure!(trail_err <= edge_tol + if open_te { open_allow(false) } else { 0.0 }, format!("C10/edges/trailing_edge_misplaced/{:?}", case.config.te), "trailing edge reported at {:?}, {trail_err:e} from the true trailing edge {:?} (chord {:.4}; {class})", te.point, truth.te_point, s.chord);
     for (name, e, open) in [("leading", le, open_le), ("trailing", te, open_te)] {
         if !open {
             let d = section.dist_to(&e.point);
